@@ -53,10 +53,17 @@ func envInt(k string, d int) int {
 // ---------------------------------------------------------------- abstract datagram
 
 type aPkt struct {
-	HdrProto uint32 // 1 Ethernet, 11 IPv4, 12 IPv6
+	HdrProto uint32 // 1 Ethernet, 11 IPv4, 12 IPv6; any other sFlow header protocol (token ring, PPP, MPLS, ...) is not dissected
 	Dst, Src [6]byte
 	HasVlan  bool
 	TCI      uint16
+	// EtherType, when not 0, replaces the ether type of the network layer (ARP 0x0806, LACP 0x8809, a second
+	// 802.1Q / 802.1ad tag 0x8100 / 0x88a8, ...): frames the packet structs cannot represent
+	EtherType uint16
+	// Trunc: the sampled header is only the first Keep octets of the encoded frame (a sampler cuts after a fixed
+	// number of octets wherever that falls: inside the Ethernet, IP or transport header; Keep 0 = header length 0)
+	Trunc bool
+	Keep  int
 	V6       bool
 	Ver      byte // version nibble of the network header (4 / 6 as a rule; the dissector reports whatever is there)
 	// IPv4; the header length nibble (IHL) is 5 + len(Opts)/4: 0..40 option octets in multiples of 4 (RFC 791)
@@ -75,11 +82,12 @@ type aPkt struct {
 	Hop        byte
 	Src6, Dst6 [16]byte
 	// L4
-	L4           int // 6 TCP, 17 UDP, 1 ICMP, 58 ICMPv6
+	L4           int // 6 TCP, 17 UDP, 1 ICMP, 58 ICMPv6; any other IP protocol / IPv6 next header (extension headers, GRE, ESP, ...) is not dissected
 	SPort, DPort uint16
 	Seq, Ack     uint32
 	DataOff      byte   // 4 bits
-	TCPFlags     uint16 // 9 bits (NS CWR ECE URG ACK PSH RST SYN FIN); reserved bits 0
+	TCPRes       byte   // 3 reserved bits between the data offset and the flag bits (RFC 793 / 3540)
+	TCPFlags     uint16 // 9 bits (NS CWR ECE URG ACK PSH RST SYN FIN)
 	Win, L4Csum  uint16
 	Urg, ULen    uint16
 	IType, ICode byte
@@ -93,9 +101,12 @@ type aRecord struct {
 	Pkt                *aPkt
 	// extended switch (1001)
 	SW [4]uint32
-	// extended router (1002)
-	Hop              []byte // 4 or 16 octets
+	// extended router (1002): next hop of 4 or 16 octets (address type 1 / 2), or none (address type 0 = unknown:
+	// record length 12); RtrBody, when not nil, is the body of a record of any other length (an address type this
+	// decoder does not know): both are skipped by their declared length
+	Hop              []byte
 	SrcMask, DstMask uint32
+	RtrBody          []byte
 	// counter records: values in specification order
 	Vals []uint64
 	// unknown format
@@ -166,11 +177,54 @@ func sfCat(bs ...[]byte) []byte {
 
 // sampled packet header, octet positions as in IEEE 802.3/802.1Q, RFC 791, RFC 8200, RFC 793, 768, 792
 func (p *aPkt) encode() []byte {
+	o := p.encodeFrame()
+	if p.Trunc && p.Keep < len(o) {
+		o = o[:p.Keep]
+	}
+	return o
+}
+
+// octets of the transport header the packet structs are filled from: the fixed TCP header, the UDP header, and for
+// ICMP type, code, checksum and at least one octet of what follows (RestHeader is everything after the checksum)
+func l4Need(l4 int) int {
+	switch l4 {
+	case 6:
+		return 20
+	case 17:
+		return 8
+	}
+	return 5
+}
+
+// specification side: can the sampled header be broken down into Ethernet / IP / TCP-UDP-ICMP fields at all?
+// (known header protocol, an IP ether type, a transport protocol the structs have a type for, and the octets of
+// all three headers present)
+func (p *aPkt) dissectable() bool {
+	if p.HdrProto != 1 && p.HdrProto != 11 && p.HdrProto != 12 {
+		return false
+	}
+	if p.HdrProto == 1 && p.EtherType != 0 {
+		return false
+	}
+	if p.L4 != 6 && p.L4 != 17 && p.L4 != 1 && p.L4 != 58 {
+		return false
+	}
+	if p.Trunc {
+		hdrs := len((&aPkt{HdrProto: p.HdrProto, HasVlan: p.HasVlan, V6: p.V6, L4: 17, Opts: p.Opts}).encodeFrame()) - 8
+		return p.Keep >= hdrs+l4Need(p.L4)
+	}
+	return true
+}
+
+func (p *aPkt) encodeFrame() []byte {
 	var o []byte
 	if p.HdrProto == 1 {
 		et := uint16(0x0800)
 		if p.V6 {
 			et = 0x86DD
+		}
+		if p.EtherType != 0 {
+			et = p.EtherType
 		}
 		o = sfCat(p.Dst[:], p.Src[:])
 		if p.HasVlan {
@@ -187,7 +241,7 @@ func (p *aPkt) encode() []byte {
 	}
 	switch p.L4 {
 	case 6:
-		o = sfCat(o, sfBe16(p.SPort), sfBe16(p.DPort), sfBe32(p.Seq), sfBe32(p.Ack), sfBe16(uint16(p.DataOff)<<12|p.TCPFlags),
+		o = sfCat(o, sfBe16(p.SPort), sfBe16(p.DPort), sfBe32(p.Seq), sfBe32(p.Ack), sfBe16(uint16(p.DataOff)<<12|uint16(p.TCPRes)<<9|p.TCPFlags),
 			sfBe16(p.Win), sfBe16(p.L4Csum), sfBe16(p.Urg), p.Rest)
 	case 17:
 		o = sfCat(o, sfBe16(p.SPort), sfBe16(p.DPort), sfBe16(p.ULen), sfBe16(p.L4Csum), p.Rest)
@@ -221,8 +275,14 @@ func (rc *aRecord) encodeBody(counter bool) []byte {
 	case 1001:
 		return sfCat(sfBe32(rc.SW[0]), sfBe32(rc.SW[1]), sfBe32(rc.SW[2]), sfBe32(rc.SW[3]))
 	case 1002:
-		t := uint32(1)
-		if len(rc.Hop) == 16 {
+		if rc.RtrBody != nil {
+			return rc.RtrBody
+		}
+		t := uint32(0)
+		switch len(rc.Hop) {
+		case 4:
+			t = 1
+		case 16:
 			t = 2
 		}
 		return sfCat(sfBe32(t), rc.Hop, sfBe32(rc.SrcMask), sfBe32(rc.DstMask))
@@ -270,7 +330,12 @@ func macStr(m [6]byte) string {
 	return fmt.Sprintf("%02x:%02x:%02x:%02x:%02x:%02x", m[0], m[1], m[2], m[3], m[4], m[5])
 }
 
+// the decoded packet the abstract packet stands for; nil when the sampled header cannot be broken down (dissectable):
+// such a raw-header record contributes nothing, and everything else in the datagram is decoded as if it were not there
 func (p *aPkt) expected() *packet.Packet {
+	if !p.dissectable() {
+		return nil
+	}
 	e := &packet.Packet{}
 	if p.HdrProto == 1 {
 		et := uint16(0x0800)
@@ -293,13 +358,34 @@ func (p *aPkt) expected() *packet.Packet {
 	}
 	switch p.L4 {
 	case 6:
-		e.L4 = packet.TCPHeader{SrcPort: int(p.SPort), DstPort: int(p.DPort), DataOffset: int(p.DataOff), Reserved: 0, Flags: int(p.TCPFlags)}
+		e.L4 = packet.TCPHeader{SrcPort: int(p.SPort), DstPort: int(p.DPort), DataOffset: int(p.DataOff), Reserved: int(p.TCPRes), Flags: int(p.TCPFlags)}
 	case 17:
 		e.L4 = packet.UDPHeader{SrcPort: int(p.SPort), DstPort: int(p.DPort)}
 	default:
-		e.L4 = packet.ICMP{Type: int(p.IType), Code: int(p.ICode), RestHeader: p.Rest}
+		// RestHeader: everything after the checksum up to the end of the sampled header
+		rest := p.Rest
+		if h := p.encode(); p.Trunc {
+			rest = rest[:len(rest)-(len(p.encodeFrame())-len(h))]
+		}
+		e.L4 = packet.ICMP{Type: int(p.IType), Code: int(p.ICode), RestHeader: rest}
 	}
 	return e
+}
+
+// the flow sample of the specification: sFlow v5 source_id is one word, type in the top 8 bits and index in the low
+// 24; both are reported (as in the counter sample).  Declared here, not taken from the package under test, so that the
+// expectation does not depend on which fields that struct happens to have.
+type xFlowSample struct {
+	SequenceNo   uint32
+	SourceID     byte
+	SourceIDIdx  uint32
+	SamplingRate uint32
+	SamplePool   uint32
+	Drops        uint32
+	Input        uint32
+	Output       uint32
+	RecordsNo    uint32
+	Records      map[string]sflow.Record
 }
 
 func setFields(ptr interface{}, fields []fieldSpec, vals []uint64) {
@@ -331,17 +417,24 @@ func (d *aDatagram) expected(filter []uint32) *sflow.SFDatagram {
 		}
 		switch s.Type {
 		case 1:
-			fs := &sflow.FlowSample{SequenceNo: s.Seq, SourceID: s.SrcType, SamplingRate: s.Rate, SamplePool: s.Pool,
+			fs := &xFlowSample{SequenceNo: s.Seq, SourceID: s.SrcType, SourceIDIdx: s.SrcIdx, SamplingRate: s.Rate, SamplePool: s.Pool,
 				Drops: s.Drops, Input: s.In, Output: s.Out, RecordsNo: uint32(len(s.Recs)), Records: map[string]sflow.Record{}}
 			for j := range s.Recs {
 				rc := &s.Recs[j]
 				switch rc.Fmt {
 				case 1:
-					fs.Records["RawHeader"] = rc.Pkt.expected()
+					// a sampled header that cannot be dissected leaves no entry (and does not displace an earlier one)
+					if e := rc.Pkt.expected(); e != nil {
+						fs.Records["RawHeader"] = e
+					}
 				case 1001:
 					fs.Records["ExtSwitch"] = &sflow.ExtSwitchData{SrcVlan: rc.SW[0], SrcPriority: rc.SW[1], DstVlan: rc.SW[2], DstPriority: rc.SW[3]}
 				case 1002:
-					fs.Records["ExtRouter"] = &sflow.ExtRouterData{NextHop: rc.Hop, SrcMask: rc.SrcMask, DstMask: rc.DstMask}
+					// only the two address types this decoder knows (IPv4 / IPv6 next hop: record length 16 / 28);
+					// any other extended-router record is skipped by its declared length
+					if rc.RtrBody == nil && (len(rc.Hop) == 4 || len(rc.Hop) == 16) {
+						fs.Records["ExtRouter"] = &sflow.ExtRouterData{NextHop: rc.Hop, SrcMask: rc.SrcMask, DstMask: rc.DstMask}
+					}
 				}
 			}
 			e.Samples = append(e.Samples, fs)
@@ -506,7 +599,73 @@ func genPkt(r *rand.Rand) *aPkt {
 		}
 	}
 	p.Rest = rbytes(r, n)
+	if r.Intn(2) == 0 {
+		p.TCPRes = byte(r.Intn(8))
+	}
+	if r.Intn(5) == 0 {
+		spoilPkt(r, p)
+	}
 	return p
+}
+
+// sampled headers the dissector cannot break down: cut short at or inside any layer (a sampler keeps a fixed number
+// of octets), frames that are not IP, IP protocols without a struct, other sFlow header protocols.  (A cut that
+// leaves the three headers whole only shortens the payload: still dissectable.)
+func spoilPkt(r *rand.Rand, p *aPkt) {
+	full := len(p.encodeFrame())
+	hdrs := len((&aPkt{HdrProto: p.HdrProto, HasVlan: p.HasVlan, V6: p.V6, L4: 17, Opts: p.Opts}).encodeFrame()) - 8
+	eth := 0
+	if p.HdrProto == 1 {
+		eth = 14
+		if p.HasVlan {
+			eth = 18
+		}
+	}
+	need := hdrs + l4Need(p.L4)
+	switch k := r.Intn(8); {
+	case k < 4:
+		p.Trunc = true
+		marks := []int{0, 1, 13, 14, 15, 17, 18, eth - 1, eth, eth + 1, eth + 19, eth + 20, eth + 39, eth + 40, hdrs - 1, hdrs, hdrs + 1,
+			hdrs + 3, hdrs + 4, hdrs + 5, hdrs + 7, hdrs + 8, hdrs + 19, hdrs + 20, need - 1, need, full - 1, full}
+		switch r.Intn(3) {
+		case 0:
+			p.Keep = marks[r.Intn(len(marks))]
+		case 1:
+			p.Keep = r.Intn(need)
+		default:
+			p.Keep = r.Intn(full + 1)
+		}
+		if p.Keep < 0 {
+			p.Keep = 0
+		}
+		if p.Keep > full {
+			p.Keep = full
+		}
+	case k == 4 && p.HdrProto == 1:
+		ets := []uint16{0x0806, 0x8809, 0x88a8, 0x88cc, 0x8847, 0x8863, 0x0801, 0x86dc, 0x0000, 0xffff}
+		if p.HasVlan {
+			ets = append(ets, 0x8100, 0x8100) // a second tag (QinQ): the inner frame is not looked at
+		}
+		p.EtherType = ets[r.Intn(len(ets))]
+		if r.Intn(3) == 0 {
+			if et := uint16(r.Intn(65536)); et != 0 && et != 0x0800 && et != 0x86DD && et != 0x8100 {
+				p.EtherType = et
+			}
+		}
+	case k <= 6:
+		// IPv6 extension headers (hop-by-hop 0, routing 43, fragment 44, destination options 60, no next header 59),
+		// IP-in-IP, GRE, ESP, AH, IGMP, OSPF, SCTP, ...
+		ps := []int{0, 43, 44, 60, 59, 2, 4, 41, 47, 50, 51, 89, 132, 255}
+		p.L4 = ps[r.Intn(len(ps))]
+		if r.Intn(3) == 0 {
+			if x := r.Intn(256); x != 6 && x != 17 && x != 1 && x != 58 {
+				p.L4 = x
+			}
+		}
+	default:
+		hp := []uint32{0, 2, 3, 4, 5, 6, 7, 8, 9, 10, 13, 14, 15, 16, 17, 0xffffffff}
+		p.HdrProto = hp[r.Intn(len(hp))]
+	}
 }
 
 // IPv4 options: IHL 6..15, i.e. 4..40 octets in multiples of 4.  Content: random octets, real option
@@ -569,8 +728,14 @@ func genFlowRec(r *rand.Rand) aRecord {
 	case 4:
 		return aRecord{Fmt: 1001, SW: [4]uint32{ru32(r), ru32(r), ru32(r), ru32(r)}}
 	case 5:
-		if r.Intn(2) == 0 {
+		switch r.Intn(6) {
+		case 0, 1:
 			return aRecord{Fmt: 1002, Hop: rbytes(r, 4), SrcMask: ru32(r), DstMask: ru32(r)}
+		case 2: // address type 0 (unknown): no next-hop octets, record length 12
+			return aRecord{Fmt: 1002, SrcMask: ru32(r), DstMask: ru32(r)}
+		case 3: // any other length (XDR: a multiple of four) -- an address type this decoder does not know
+			n := []int{0, 4, 8, 12, 20, 24, 32, 36, 40, 64}[r.Intn(10)]
+			return aRecord{Fmt: 1002, RtrBody: append([]byte{}, rbytes(r, n)...)}
 		}
 		a := ipv6Addr(r)
 		return aRecord{Fmt: 1002, Hop: a[:], SrcMask: ru32(r), DstMask: ru32(r)}
@@ -931,10 +1096,19 @@ func genDissect(r *rand.Rand, n int, w *bufio.Writer) {
 		}
 		h := p.encode()
 		proto := p.HdrProto
+		if !p.dissectable() {
+			// specification side: such a header has no breakdown -- the dissector must say so (an error, never a packet)
+			fmt.Fprintf(w, "dissect %d %s\tE\n", proto, hx(h))
+			continue
+		}
 		if r.Intn(100) < 70 {
 			exp, _ := json.Marshal(p.expected())
 			fmt.Fprintf(w, "dissect %d %s\tW %s\n", proto, hx(h), exp)
 			continue
+		}
+		if p.Trunc { // the perturbations below start from the whole frame
+			p.Trunc = false
+			h = p.encode()
 		}
 		switch r.Intn(6) {
 		case 5: // the IPv4 header-length nibble no longer matches the octets: any IHL 0..15 (below 5 is malformed), header cut anywhere around it
@@ -986,6 +1160,9 @@ func runDissect(st *state, line, expect string) (string, string) {
 	verdict := "ok"
 	if strings.HasPrefix(expect, "W ") && out != expect[2:] {
 		verdict = "fail:C07 dissected header differs from the abstract packet: " + firstDiff(out, expect[2:])
+	}
+	if expect == "E" && !strings.HasPrefix(out, "err ") {
+		verdict = "fail:C07 a sampled header that cannot be broken down was dissected: " + out
 	}
 	return out, verdict
 }
